@@ -218,8 +218,8 @@ TEMPLATES = [["SetX", 5], ["SetX", 1], ["SetX", 101], ["SetT", 3, 4], ["SetT", 3
              ["ReadY"], ["SetAd2", 0, 3], ["SetAd2", 1, 3], ["SetAd2", 2, 3], ["SetAd2", None, 3],
              ["SetXQ", 5], ["SetXQ", 100], ["ObsRemove"], ["ObsAdd"]]
 FOLLOW = [["SetX", 6], ["LExtend", [1, 2]], ["DUpdate", [[2, 2]]], ["SUpdate", [5]], ["ReadF"], ["ReadM"], ["ReadC"],
-          ["SetP", 8], ["ReadP"], ["SetAd", 2, 4], ["LSetSlice", 0, 2, [3]], ["SIxor", [1, 8]], ["SetY", 7], ["ReadY"],
-          ["SetAd2", 1, 5], ["SetX", 3], ["AddZ"], ["SetZ", 0, 4], ["ObsRemove"], ["AddZ"], ["SetZ", 1, 6], ["SetZ", 0, 2]]
+          ["SetP", 8], ["SetAd", 2, 4], ["SIxor", [1, 8]], ["SetY", 7], ["SetAd2", 1, 5], ["AddZ"], ["SetZ", 0, 4],
+          ["SetX", 3]]
 
 
 def systematic():
@@ -254,7 +254,7 @@ def run(ctx):
                        "the steps. A case is non-trivial if at least one injected fault fired; distinct = distinct "
                        "(operation, plan) lists")
     rnd = random.Random(ctx.seed)
-    n, maxlen = (500, 8) if ctx.tier == "quick" else (12000, 14)
+    n, maxlen = (400, 8) if ctx.tier == "quick" else (12000, 14)
     if ctx.replay:
         cases = [json.load(open(ctx.replay))["replay"]["case"]]
     else:
